@@ -126,6 +126,18 @@ Theorem perm_invariant_extract : forall pres s s' ts, seq_perm s s' ->
 Proof. exact E.perm_extract. Qed.
 Print Assumptions perm_invariant_extract.
 
+(** extract_subsequence (one window) and trim_note_sequence (no hypothesis) *)
+Theorem perm_invariant_extract_one : forall pres s s' a b, seq_perm s s' ->
+  distinct_on tp_time (s_tempos s) -> distinct_on ts_time (s_tsigs s) -> distinct_on ks_time (s_ksigs s) ->
+  distinct_on tx_time (X.chords_of s) -> distinct_on cc_kind_time (s_ccs s) ->
+  E.extract1_rel (X.extract_subsequence pres s a b) (X.extract_subsequence pres s' a b).
+Proof. exact E.perm_extract_one. Qed.
+Print Assumptions perm_invariant_extract_one.
+
+Theorem perm_invariant_trim : forall s s' a b, seq_perm s s' -> E.extract1_rel (X.trim s a b) (X.trim s' a b).
+Proof. exact E.perm_trim. Qed.
+Print Assumptions perm_invariant_trim.
+
 (** * the splitters: the chosen split points are equal, then as for extraction *)
 Theorem perm_invariant_split_points : forall s s', seq_perm s s' ->
   (forall sts skip, StronglySorted Z.le sts -> Sp.hop_valid s sts skip = Sp.hop_valid s' sts skip) /\
